@@ -1,26 +1,1 @@
-// generated by the runner: concrete counterexamples replayed natively
-use super::r#gen::*;
-/// Test generated for harness `r#gen::c23_eol_s21` 
-///
-/// Check for `assertion`: ""offset stays within the line's content (not inside CRLF / past the terminator)""
-
-#[test]
-fn kani_concrete_playback_c23_eol_s21_5603246272245493992() {
-    let concrete_vals: Vec<Vec<u8>> = vec![
-        // 3
-        vec![3],
-        // 1
-        vec![1],
-        // 2ul
-        vec![2, 0, 0, 0, 0, 0, 0, 0],
-        // 3
-        vec![3],
-        // 1
-        vec![1],
-        // 0ul
-        vec![0, 0, 0, 0, 0, 0, 0, 0],
-        // 2ul
-        vec![2, 0, 0, 0, 0, 0, 0, 0],
-    ];
-    kani::concrete_playback_run(concrete_vals, c23_eol_s21);
-}
+// no concrete playback test recorded
